@@ -226,6 +226,20 @@ func genHier(r *vh.Rng) *Hier {
 			}
 		}
 	}
+	// one or two interpreted interfaces that nobody embeds, over the whole method pool
+	for i, ni := 0, 1+r.Intn(2); i < ni; i++ {
+		td := TypeDef{Name: fmt.Sprintf("T%d", len(h.Types)), Kind: KIface}
+		used := map[string]bool{}
+		for j, m := 0, 1+r.Intn(3); j < m; j++ {
+			nm := methNames[r.Intn(len(methNames))]
+			if !used[nm] {
+				used[nm] = true
+				td.Methods = append(td.Methods, Method{Name: nm})
+			}
+		}
+		sort.Slice(td.Methods, func(i, j int) bool { return td.Methods[i].Name < td.Methods[j].Name })
+		h.Types = append(h.Types, td)
+	}
 	// sometimes complete a type to a sort.Interface / Stringer implementer
 	if r.Chance(1, 2) {
 		k := r.Intn(n)
